@@ -61,7 +61,7 @@ checks = {
    note="Trusted: simfs (in-memory model of open/create/truncate/write/close/rename/remove with process-death semantics, no lost un-synced data); the AST import rewrite of db/fs."),
  "C13": dict(level="fault_enumeration", design="§4 C13",
    technique=TECH + "every single and (thorough: every, quick: sampled) double failing driver call on an in-process transactional fake of pgx, transaction log + acknowledged-write model",
-   text="For sampled operation histories on the real db/postgres every primitive driver call (BeginTx, Exec, Query, Next, Scan, Commit incl. in-doubt, Rollback) is made to fail once - with a synthetic error or by the request context being cancelled in mid-flight - and every pair in the thorough tier; histories include listings (Dump) and the table set-up step of Connect (through the one guarded hook in /repo); the faulted operation must report an error, no call may reach an ended transaction, every transaction must be ended by commit/rollback, later single operations must succeed, acknowledged writes must not be lost, and all-success explicit transactions must be visible at Stop and invisible after Abort.",
+   text="For sampled operation histories on the real db/postgres every primitive driver call (BeginTx, Exec, Query, Next, Scan, Commit incl. in-doubt, Rollback) is made to fail once - with a synthetic error or by the request context being cancelled in mid-flight - and every pair in the thorough tier; a faulted read may fail with any error but 'not found' for a key whose write was acknowledged; histories include listings (Dump) and the table set-up step of Connect (through the one guarded hook in /repo); the faulted operation must report an error, no call may reach an ended transaction, every transaction must be ended by commit/rollback, later single operations must succeed, acknowledged writes must not be lost, and all-success explicit transactions must be visible at Stop and invisible after Abort.",
    note="Trusted: pgfake (stub of Postgres + pgx objects; read-committed, statement error aborts the transaction); the acknowledged/in-doubt model."),
  "C01": dict(level="exploration", design="§4 C01",
    technique=TECH + "seeded histories with restarts, failing external calls and client garbage; size invariant on every Flush plus unsized differential twin",
